@@ -6,10 +6,11 @@ from . import c02, c03, c04, c05, c06, c07, c08
 
 FACTS = True
 MODULE = "Genql.Properties.C12"
-LEAN_TARGETS = [MODULE, "Genql.Obligations.C08"]
+LEAN_TARGETS = [MODULE, "Genql.Obligations.C08", "Genql.Obligations.C12"]
 THEOREMS = ["Genql.C12." + t for t in [
     "valueOf_plain", "tuple_plain", "daterange_plain", "array_plain", "result_no_marker", "deterministic",
-    "group_order_oracle_free", "join_multiset_deterministic", "subq_star_dual", "subq_star_dual_no_marker"]] + ["Genql.Obligations.C08." + t for t in ["copy_inherits_clauses", "copy_own_state", "copy_query_lines"]]
+    "group_order_oracle_free", "join_multiset_deterministic", "subq_star_dual", "subq_star_dual_no_marker"]] + \
+    ["Genql.Obligations.C12.value_of_cases", "Genql.Obligations.C12.select_item_lines"] + ["Genql.Obligations.C08." + t for t in ["copy_inherits_clauses", "copy_own_state", "copy_query_lines"]]
 TRUSTED = ["Go reflection type walk in the runner (every value must be nil/bool/number/string/[]any/map[string]any)",
            "encoding of results as JSON by the runner (round trip)"]
 RULE = ("every generator of C02-C08 (all expression forms, joins, groups, unions, CTEs, sub-queries, nested sources) plus probes "
